@@ -15,7 +15,7 @@ RULE = ("request specs: 9 methods x unicode paths over an alphabet with reserved
         "query dicts and form dicts whose keys/values contain & = + % # ? ; space and non-ASCII x header sets (token names in "
         "mixed case, latin-1 values with ': ', blanks, empty) x raw / JSON / form bodies, with and without explicit "
         "Content-Length; built by the real Requester, parsed by the real Requestant + Server.buildEnviron; a second stream "
-        "each request is followed by 0-3 rebuild() calls on the same Requester (no arguments, or only some of method / path / qargs / headers / body, the rest carried over), every build parsed and compared; a further stream leaves the well-formed domain (path with ? or #, // prefix, control characters, CR/LF in header values) where only "
+        "all requests of a history are also fed to ONE Requestant (pipelined or one after the other, in a quarter of the cases after a hand-written chunked / Content-Length / cookie-bearing first request) and every parse is compared with the parse of the same request alone; each request is followed by 0-3 rebuild() calls on the same Requester (no arguments, or only some of method / path / qargs / headers / body, the rest carried over), every build parsed and compared; a further stream leaves the well-formed domain (path with ? or #, // prefix, control characters, CR/LF in header values) where only "
         "model/implementation agreement is compared. Non-trivial: a reserved or non-ASCII character in path, key, value or header value")
 MODELLED = ["urllib.parse.quote/quote_plus/unquote/unquote_plus/urlsplit/parse_qsl and UTF-8 coding (Gallina functions; swept against CPython in C16's and this driver's extra())",
             "json.dumps of the data argument (external: the encoded bytes are part of the request spec)",
@@ -116,6 +116,39 @@ def specs(case):
     return out
 
 
+def _stream(case, wires):
+    """All built requests of the history through ONE Requestant (one server connection): pipelined (whole
+    stream in the buffer at once) or one after the other (next request appended after the previous one ended),
+    optionally after a hand-written first request.  -> (stream bytes, list of parsed tuples or None)"""
+    from hio.core.http import serving
+    pre = bytes.fromhex(case.get("first_raw", ""))
+    msgs = ([pre] if pre else []) + wires
+    buf = bytearray()
+    rq = serving.Requestant(msg=buf, remoter=_Remoter())
+    out = []
+    pipelined = case.get("pipelined", True)
+    if pipelined:
+        buf.extend(b"".join(msgs))
+    for i, m in enumerate(msgs):
+        if not pipelined:
+            buf.extend(m)
+        if i > 0:
+            rq.makeParser()
+        try:
+            for _ in range(6):
+                if rq.parser:
+                    rq.parse()
+        except Exception as ex:
+            out.append(None)
+            break
+        if not rq.ended or rq.errored:
+            out.append(None)
+            break
+        out.append({"method": rq.method, "path": rq.path, "query": rq.query,
+                    "headers": [[k, v] for k, v in rq.headers.items()], "body": bytes(rq.body).hex()})
+    return b"".join(msgs), out
+
+
 def run_impl(case):
     steps = []
     sp = specs(case)
@@ -134,7 +167,9 @@ def run_impl(case):
                     break
                 continue
             steps.append(_observe(wire, spec["body"][0] == "form" and spec["method"] != "GET"))
-    obs = {"steps": steps}
+        wires = [bytes.fromhex(so["built"]) for so in steps if so.get("built")]
+        stream_in, stream = _stream(case, wires)
+    obs = {"steps": steps, "stream_in": stream_in.hex(), "stream": stream, "stream_n": (1 if case.get("first_raw") else 0) + len(wires)}
     obs.update(rec.tables())
     return obs
 
@@ -199,12 +234,37 @@ def wf(case):
 
 
 def oracle(case, obs):
+    why = _oracle_stream(case, obs)
+    if why:
+        return why
     for i, (spec, so) in enumerate(zip(specs(case), obs["steps"])):
         if not wf(spec):
             return None          # outside the domain from here on (stored attributes no longer specified)
         why = _oracle_step(spec, so)
         if why:
             return f"build #{i + 1} of the history: {why}"
+    return None
+
+
+def _oracle_stream(case, obs):
+    """every request on one connection must parse exactly as it parses alone (fresh Requestant)"""
+    sp = specs(case)
+    if not all(wf(x) for x in sp):
+        return None
+    alone = [so["parsed"] for so in obs["steps"] if so.get("built")]
+    got = obs["stream"][1:] if case.get("first_raw") else obs["stream"]
+    if case.get("first_raw") and (not obs["stream"] or obs["stream"][0] is None):
+        return None      # the hand-written first request did not parse: nothing to compare
+    for i, a in enumerate(alone):
+        if a is None:
+            return None
+        if i >= len(got) or got[i] is None:
+            return f"request #{i + 1} on a shared connection did not parse (alone it does)"
+        g = got[i]
+        for f in ("method", "path", "query", "headers", "body"):
+            if g[f] != a[f]:
+                return (f"request #{i + 1} on a shared connection: {f} {g[f]!r} differs from the same request parsed "
+                        f"alone {a[f]!r} (state of the previous request leaked)")
     return None
 
 
@@ -308,9 +368,14 @@ def to_coq(case, obs):
     req = ("{| HttpReq.q_method := %s; HttpReq.q_path := %s; HttpReq.q_qargs := %s; HttpReq.q_headers := %s; HttpReq.q_body := %s |}"
            % (_s(case["method"]), _s(case["path"]), _pairs(case["qargs"]), _pairs(case["headers"]), _body_term(case["body"])))
     return ("{| HttpReq.y_req := %s; HttpReq.y_ops := %s; HttpReq.y_host := %s; HttpReq.y_port := %s; HttpReq.y_ip6 := %s; "
-            "HttpReq.y_nfkc := %s; HttpReq.y_steps := %s |}"
+            "HttpReq.y_nfkc := %s; HttpReq.y_steps := %s; HttpReq.y_stream_in := %s; HttpReq.y_stream_n := %s; HttpReq.y_stream := %s |}"
             % (req, coq_list([_op_term(o) for o in case.get("ops", [])], "HttpReq.rargs"), _s(HOST), coq_N(PORT),
-               _tbl(obs["ip6"]), _tbl(obs["nfkc"]), coq_list([_step_term(x) for x in obs["steps"]], "HttpReq.stepobs")))
+               _tbl(obs["ip6"]), _tbl(obs["nfkc"]), coq_list([_step_term(x) for x in obs["steps"]], "HttpReq.stepobs"),
+               coq_bytes(bytes.fromhex(obs["stream_in"])), "%d%%nat" % obs["stream_n"],
+               coq_list(["None" if x is None else
+                         f"(Some ({_s(x['method'])}, {_s(x['path'])}, {_s(x['query'])}, {_pairs(x['headers'])}, {coq_bytes(bytes.fromhex(x['body']))}))"
+                         for x in obs["stream"]],
+                        "option (HttpReqUrl.ustr * HttpReqUrl.ustr * HttpReqUrl.ustr * list (HttpReqUrl.ustr * HttpReqUrl.ustr) * bytes)")))
 
 
 # --------------------------------------------------------------------------- generators
@@ -391,6 +456,15 @@ def _spoil(rng, case):
     return case
 
 
+# hand-written first requests on the shared connection (what another client / an earlier exchange left behind)
+FIRST_RAW = [
+    b"POST /first HTTP/1.1\r\nHost: h\r\nTransfer-Encoding: chunked\r\nX-First: 1\r\n\r\n3\r\nabc\r\n0\r\n\r\n",
+    b"POST /first HTTP/1.1\r\nHost: h\r\nContent-Length: 5\r\nContent-Type: application/json\r\nX-Stale: yes\r\n\r\n12345",
+    b"PUT /first?a=1 HTTP/1.1\r\nConnection: keep-alive\r\nCookie: a=1\r\nAuthorization: Basic Zm9v\r\nContent-Length: 0\r\n\r\n",
+    b"POST /first HTTP/1.1\r\ntransfer-encoding: Chunked\r\n\r\n1;x=y\r\nz\r\n0\r\nTrailer: t\r\n\r\n",
+]
+
+
 def _op(rng):
     """arguments of one rebuild(): nothing, or only some fields (the rest is carried over)"""
     k = rng.random()
@@ -420,6 +494,9 @@ def generate(rng, tier):
             # an explicit Content-Length would be carried over to bodies of another length
             c["headers"] = [h for h in c["headers"] if h[0].lower() != "content-length"]
             c["ops"] = [_op(rng) for _ in range(nops)]
+        c["pipelined"] = rng.random() < 0.5
+        if rng.random() < 0.25:
+            c["first_raw"] = rng.choice(FIRST_RAW).hex()
         out.append(c)
     return out
 
@@ -447,6 +524,14 @@ def directed():
         R(method="POST", path="/a b", headers=[["X-A", "1"]], body=["json", {"a": 1}], ops=[{"body": ["raw", b"raw".hex()]}, {"path": "/c d"}, {}]),
         R(method="PUT", path="/f g", body=["form", [["a&b", "c=d"]]], ops=[{"qargs": [["q ", "%"]]}, {"headers": [["x-UPPER", "v"]], "body": ["form", [["k", "é"]]]}]),
         R(path="/x y", ops=[{"method": "DELETE"}, {"path": "/€ %25"}, {"qargs": []}]),
+        # several requests on one server connection: nothing of request k may reach request k+1
+        R(method="POST", path="/with-body", headers=[["X-One", "1"]], body=["raw", b"12345".hex()],
+          ops=[{"method": "GET", "headers": [["X-Two", "2"]]}, {"method": "POST", "body": ["raw", b"xy".hex()]}], pipelined=True),
+        R(method="POST", path="/with-body", headers=[["X-One", "1"]], body=["json", {"a": 1}],
+          ops=[{"method": "GET", "headers": []}, {"method": "PUT", "headers": [["Accept", "*/*"]], "body": ["form", [["k", "v"]]]}], pipelined=False),
+        R(path="/after-chunked", first_raw=FIRST_RAW[0].hex(), ops=[{"method": "POST", "body": ["raw", b"abc".hex()]}], pipelined=True),
+        R(path="/after-length", first_raw=FIRST_RAW[1].hex(), ops=[{}], pipelined=False),
+        R(method="POST", path="/after-cookies", first_raw=FIRST_RAW[2].hex(), body=["raw", b"q".hex()], ops=[{"method": "GET"}], pipelined=True),
     ]
 
 
